@@ -156,6 +156,10 @@ func NewWorld(cfg Config) (*World, error) {
 		md := vmcommon.CodeMetadata{Payable: st == Payable, Upgradeable: r.Intn(2) == 0, Readable: r.Intn(2) == 0}
 		// contract accounts come into being through the real deploy-arguments parser
 		code := []byte{0xde, 0xad, byte(i)}
+		if r.Intn(40) == 0 {
+			// an ordinary-sized contract: one field of more than 64 K hex characters
+			code = append(code, make([]byte, []int{32765, 32766, 40000}[r.Intn(3)])...)
+		}
 		var ctorArgs [][]byte
 		for k := r.Intn(4); k > 0; k-- {
 			a := make([]byte, r.Intn(3))
@@ -211,6 +215,7 @@ func NewWorld(cfg Config) (*World, error) {
 			w.violate(spec.Violation{Props: spec.P("C18"), Clause: "construction", Detail: fmt.Sprintf("building the functions of shard %d from a valid configuration failed: %v", s, err)})
 			return w, nil
 		}
+		nd.Store.ScratchReads = cfg.ScratchReads
 		nd.Codec.Report = func(detail string) {
 			w.violate(spec.Violation{Props: spec.P("C14"), Clause: "codec", Detail: detail})
 		}
@@ -228,7 +233,8 @@ func NewWorld(cfg Config) (*World, error) {
 		// pre-history (written with the oracle's reference encoder): for each SFT/NFT token a creator
 		// that holds the create role (plus the other roles of the kind), a counter near a byte
 		// boundary and one old piece (nonce 1) it still holds
-		counters := []uint64{254, 255, 256, 510, 511, 65534, 65535, 1<<32 - 2}
+		// byte-length boundaries of the big-endian spelling and of the base-128 (varint) spelling
+		counters := []uint64{254, 255, 256, 510, 511, 65534, 65535, 1<<32 - 2, 126, 127, 16382, 16383, 1<<21 - 2, 1<<21 - 1, 1<<28 - 1, 1<<35 - 1}
 		for i, t := range u.Tokens {
 			if t.Kind == KindFungible || len(u.Users) == 0 || r.Intn(3) == 0 {
 				continue
